@@ -37,7 +37,7 @@ func c13Statement(m *big.Int, sign int, factor uint, diff *big.Int, sp rangeproo
 func TestVerifC13(t *testing.T) {
 	r := vkit.Start(t, "C13", "completeness", 240*time.Second, 1500*time.Second)
 	defer r.Finish()
-	r.Rule = "attribute m (large, so that bounds stay non-negative); statement sign*(factor*m-bound)=diff for diff in [-3,W] and 2^k, 2^k-1 (k up to 255), sign in {+1,-1}, factor 1..8 with four squares; factor 1 with GenerateSquaresTable(limit) for limit in {5,16,17,31,33,64,100} (thorough: + 15,32,63,65,255,256,257) and every diff in [-2, limit+1]; combinations of 2-3 statements on one and two attributes; query sequences of 3 proofs from one reused Statement object whose bound the caller moves in place between queries (earlier proofs must keep verifying and reporting their bound); honest proofs also with every range-proof random draw forced to min/max/short (<=1 deviation); non-trivial = distinct (splitter, sign, factor, diff); oracle: diff>=0 (and within the documented table limit) => proof created, verifies, Proves(statement); diff<0 => ErrFalseStatement"
+	r.Rule = "attribute m (large, so that bounds stay non-negative); statement sign*(factor*m-bound)=diff for diff in [-3,W] and 2^k, 2^k-1 (k up to 255), sign in {+1,-1}, factor 1..8 with four squares; factor 1 with GenerateSquaresTable(limit) for limit in {5,16,17,31,33,64,100} (thorough: + 15,32,63,65,255,256,257) and every diff in [-2, limit+1]; combinations of 2-3 statements on one and two attributes; query sequences of 3 proofs from one reused Statement object whose bound the caller moves in place between queries (earlier proofs must keep verifying and reporting their bound); honest proofs also with every range-proof random draw forced to min/max/short (<=1 deviation); a failure of the random source at every draw of Commit followed by a second Commit on the same builder; non-trivial = distinct (splitter, sign, factor, diff); oracle: diff>=0 (and within the documented table limit) => proof created, verifies, Proves(statement); diff<0 => ErrFalseStatement"
 	k := vfK("toyA")
 	pk := k.Pk
 	env := vfInstallEnv(t, "C13", r.Seed)
@@ -243,6 +243,64 @@ func TestVerifC13(t *testing.T) {
 			}
 			return !r.Expired()
 		})
+	}
+	// a transient failure of the random source at EVERY draw of Commit, then Commit again on the same
+	// builder (a caller that retries): the proof made afterwards must verify and report its statements
+	if _, mine := r.Next(); mine {
+		stmts := func() map[int][]*rangeproof.Statement {
+			return map[int][]*rangeproof.Statement{1: {c13Statement(m, 1, 1, vfInt(10), nil), c13Statement(m, -1, 1, vfInt(6), nil), c13Statement(m, 1, 1, vfInt(3), tables[64])}, 3: {c13Statement(cred.Attributes[3], -1, 1, vfInt(4), nil)}}
+		}
+		// dry run: how many draws builder creation and Commit take
+		env.Reset()
+		b0, err := cred.CreateDisclosureProofBuilder([]int{2}, stmts(), false)
+		if err != nil {
+			r.HarnessError("builder: %v", err)
+			return
+		}
+		base := env.Draws()
+		rnd0, _ := NewProofRandomizers()
+		afterRnd := env.Draws()
+		if _, err := b0.Commit(rnd0); err != nil {
+			r.HarnessError("commit: %v", err)
+			return
+		}
+		total := env.Draws()
+		r.Bounds["commit_draws"] = total - afterRnd
+		for i := afterRnd; i < total; i++ {
+			r.Eval()
+			desc := fmt.Sprintf("random source fails at draw %d of %d of Commit, then Commit is repeated", i-afterRnd, total-afterRnd)
+			r.Nontrivial(desc)
+			env.Reset(venv.Deviation{Draw: i, Ans: venv.Error})
+			var p *ProofD
+			var firstErr error
+			pan, msg := vkit.Guard(func() {
+				b, err := cred.CreateDisclosureProofBuilder([]int{2}, stmts(), false)
+				if err != nil {
+					panic(err)
+				}
+				_ = base
+				rnd, err := NewProofRandomizers()
+				if err != nil {
+					panic(err)
+				}
+				_, firstErr = b.Commit(rnd)
+				list, err := b.Commit(rnd)
+				if err != nil {
+					panic(fmt.Sprintf("second Commit: %v", err))
+				}
+				c := createChallenge(vfContext, vfNonce, list, false)
+				p = b.CreateProof(c).(*ProofD)
+			})
+			r.Outcome(fmt.Sprintf("fault+retry:first commit failed=%v:constructed=%v", firstErr != nil, !pan))
+			if pan {
+				r.Violate("C13|true-statement-not-provable|after-failed-commit", desc+": "+msg, desc)
+				continue
+			}
+			if acc, _ := c12Verify(pk, p); !acc {
+				r.Violate("C13|true-statement-proof-rejected|after-failed-commit", desc+fmt.Sprintf(" (first Commit returned %v)", firstErr), desc)
+			}
+		}
+		env.Reset()
 	}
 	_ = gabikeys.DefaultEpochLength
 }
